@@ -179,7 +179,7 @@ Proof.
   assert (Hpw : p' <> w) by (intro Ep; subst p'; congruence).
   (* the new cell, then its flags *)
   unfold bind at 1. unfold allocw.
-  set (c0 := mkW (Some p') None None None 1 false false true false false [] false).
+  set (c0 := mkW (Some p') None None None 1 false false true false false [] false false).
   set (h1 := mkHeap (PM.add (nextw h) c0 (wins h)) (reqs h) (rx h) (Pos.succ (nextw h)) (nextq h) (dlog h) (uninit_seen h) (tr h)).
   fold w.
   assert (Fr1 : fresh_cell h h1 w c0).
